@@ -165,14 +165,38 @@ pub fn gen_script(rng: &mut Rng) -> IoScript {
 }
 
 fn gen_direct(rng: &mut Rng, strs: &StrCfg, well_formed: bool) -> PReg {
-    let n = match rng.below(20) {
-        0 => 0,
-        1 => rng.range(60, 70) as u32,
-        2 => rng.range(100, 260) as u32,
+    let n = match rng.below(40) {
+        0 | 1 => 0,
+        2 | 3 => rng.range(60, 70) as u32,
+        4 | 5 => rng.range(100, 260) as u32,
+        // more entries than one pre-allocation chunk of the codec holds
+        // (16 KiB / size_of::<PortableType>()), and than 1024, 4096
+        6 => {
+            probe("frame_source.many_types");
+            *rng.pick(&[140u32, 1023, 1024, 1025, 1500, 4097, 6000])
+        }
         _ => rng.range(1, 9) as u32,
     };
     let mut types = Vec::new();
+    if n > 1000 {
+        // tiny entries, or the frame would be megabytes
+        for i in 0..n {
+            let id = if well_formed || rng.permille(900) { i } else { tablesim::gen_id(rng, n, 300) };
+            let def = match rng.below(3) {
+                0 => crate::ptype::PDef::Primitive(rng.below(15) as u8),
+                1 => crate::ptype::PDef::Sequence(rng.below(n as u64) as u32),
+                _ => crate::ptype::PDef::Tuple(vec![]),
+            };
+            types.push((id, PType { path: vec![], params: vec![], def, docs: vec![] }));
+        }
+        return PReg { types };
+    }
     for i in 0..n {
+        if n < 20 && rng.permille(8) {
+            probe("frame_source.bulk_collection");
+            types.push((i, tablesim::gen_bulk_ptype(rng, n.saturating_sub(1))));
+            continue;
+        }
         if well_formed {
             types.push((i, tablesim::gen_ptype(rng, strs, n - 1, 0)));
         } else {
@@ -1189,18 +1213,32 @@ pub fn sweep_cases(len: usize, sites: Option<&[layout::Site]>) -> Vec<Case> {
 pub fn sweep_scenario(frame: &PReg) -> Result<Option<WireScenario>, String> {
     let bytes = core::catch(|| frame.to_lib().encode())?;
     if bytes.len() > SWEEP_MAX_FRAME {
+        probe("sweep.frames_skipped_larger_than_2048_bytes");
         return Ok(None);
     }
     let sites = layout::sites(&bytes);
     if sites.is_none() {
         probe("aiming_parser.disagreement");
     }
+    let cases = sweep_cases(bytes.len(), sites.as_deref());
+    probe("sweep.frames_swept");
+    probe_n("sweep.frame_bytes_swept", bytes.len() as u64);
+    probe_n("sweep.single_faults.truncation_points_x2_readers", 2 * bytes.len() as u64);
+    probe_n("sweep.single_faults.bit_flips", 8 * bytes.len() as u64);
+    probe_n("sweep.single_faults.io_error_offsets_x6_kinds", 6 * (bytes.len() as u64 + 1));
+    probe_n(
+        "sweep.single_faults.targeted_rewrites",
+        cases.len() as u64 - 10 * bytes.len() as u64 - 6 * (bytes.len() as u64 + 1),
+    );
+    if let Some(s) = &sites {
+        probe_n("sweep.fields_located_by_aiming_parser", s.len() as u64);
+    }
     Ok(Some(WireScenario {
         frames: vec![frame.clone()],
         sentinel: vec![],
         writer: IoScript::plain(),
         readers: vec![ReaderSpec::Slice, ReaderSpec::Io(IoScript::plain())],
-        cases: sweep_cases(bytes.len(), sites.as_deref()),
+        cases,
     }))
 }
 
